@@ -63,8 +63,5 @@ Print Assumptions C07_plain_text_safe.
 Theorem C07_wrap_words : forall (C : Classifier) (K : ClassifierOk) (U : Upper) text w sep ct b,
   collapse_space text sep = Ok ct -> all_safe ct -> ct <> [] -> wrap text w sep = Ok b ->
   exists pss, b_lines b = map ln pss /\ cov (concat pss) (wds (clusters ct) []).
-Proof.
-  intros C K U text w sep ct b Hc Hs Hne Hw.
-  destruct (wrap_structure text w sep ct b Hc Hs Hne Hw) as (pss & H1 & _ & _ & H4). exact (ex_intro _ pss (conj H1 H4)).
-Qed.
+Proof. intros C K U. exact wrap_words. Qed.
 Print Assumptions C07_wrap_words.
